@@ -22,3 +22,6 @@ open Neutrino.Net
 #print axioms Neutrino.Ask.C04_ahead_peer_asked
 #print axioms Neutrino.Ask.C04_ahead_peer_asked_inv
 #print axioms Neutrino.Ask.C04_done_asks_replacement
+#print axioms Neutrino.Ask.C04_no_message_lost
+#print axioms Neutrino.Ask.C04_lost_reply_stalls
+#print axioms Neutrino.Net.C04_progress_no_loss
